@@ -28,7 +28,7 @@ PROP = dict(
     max_rejections=4,
     rule="histories on a real PassiveFilter + Passive with clock.Mock: (A) EVERY timeline of 0..2 failures per time point "
          "over T time points x every Fails in 1..3 x FailTimeout in 1..3 ticks (a second host runs the mirrored timeline), "
-         "Run and Resolve observed after every time point; (A2, thorough) every 0/1 timeline over 9 time points; (B) seeded "
+         "Run and Resolve observed after every time point; (A2, thorough) every 0/1 timeline over 8 time points; (B) seeded "
          "random histories of Failed/Tick/Run/Resolve/SetList over 3 hosts; distinct = distinct event sequences; "
          "non-trivial = a host was filtered out and later returned again",
     assumptions=["'within FailTimeout of some failure' is read as the FailTimeout period ending at that failure (see PassiveHealth.tla)",
